@@ -721,7 +721,7 @@ Section Inv.
     - apply (wi_ex_task _ HI).
     - intros t s E Eb. destruct (wi_placed_batch _ HI _ _ E Eb) as [B1 B2].
       destruct (zfind (s_id s) (w_btask w)) as [b|] eqn:Ebt.
-      + exists b. split; [reflexivity|]. rewrite B1 at 2. apply (wi_ex_batch _ HI). exact Ebt.
+      + exists b. split; [reflexivity|]. pose proof (wi_ex_batch _ HI _ _ Ebt) as X. rewrite <- B1 in X. exact X.
       + apply (zfind_keys_eq _ _ _ (wi_bt_keys _ HI)) in Ebt. congruence.
     - apply (wi_ex_prof _ HI).
   Qed.
